@@ -34,6 +34,77 @@ import (
 type delitState struct {
 	n     int
 	notes []string
+	// names of library functions and methods that can reach an explicit panic (by bare name; see mayPanicNames)
+	mayPanic map[string]bool
+}
+
+// mayPanicNames: the bare names of the functions and methods of the library (overlay applied) whose body contains an
+// explicit panic or calls - by name - a function or method in the set. Purely syntactic and conservative: a name
+// clash only makes un-deferring (below) refuse more often.
+func mayPanicNames(files []string, overlay map[string][]byte) map[string]bool {
+	type fnInfo struct {
+		name  string
+		calls map[string]bool
+		pan   bool
+	}
+	var fns []*fnInfo
+	fset := token.NewFileSet()
+	for _, fn := range files {
+		var src any
+		if b, ok := overlay[fn]; ok {
+			src = b
+		}
+		f, err := parser.ParseFile(fset, fn, src, parser.SkipObjectResolution)
+		if err != nil {
+			continue
+		}
+		for _, d := range f.Decls {
+			fd, ok := d.(*ast.FuncDecl)
+			if !ok || fd.Body == nil {
+				continue
+			}
+			fi := &fnInfo{name: fd.Name.Name, calls: map[string]bool{}}
+			ast.Inspect(fd.Body, func(n ast.Node) bool {
+				if ce, ok := n.(*ast.CallExpr); ok {
+					switch x := ce.Fun.(type) {
+					case *ast.Ident:
+						if x.Name == "panic" {
+							fi.pan = true
+						}
+						fi.calls[x.Name] = true
+					case *ast.SelectorExpr:
+						fi.calls[x.Sel.Name] = true
+					case *ast.IndexExpr:
+						if id, ok := x.X.(*ast.Ident); ok {
+							fi.calls[id.Name] = true
+						}
+					}
+				}
+				return true
+			})
+			fns = append(fns, fi)
+		}
+	}
+	set := map[string]bool{}
+	for changed := true; changed; {
+		changed = false
+		for _, fi := range fns {
+			if set[fi.name] {
+				continue
+			}
+			hit := fi.pan
+			for c := range fi.calls {
+				if set[c] {
+					hit = true
+				}
+			}
+			if hit {
+				set[fi.name] = true
+				changed = true
+			}
+		}
+	}
+	return set
 }
 
 // iifeTexts collects the source text of every immediately invoked function literal of a file.
@@ -109,7 +180,7 @@ func (st *delitState) delitOnce(fname string, src []byte, original, skip map[str
 			return nil
 		}
 		key := squash(src[off(fl.Pos()):off(fl.End())])
-		if original[key] || skip[key] {
+		if original[key] || skip[key] || hasOrigMarker(fl) {
 			return nil
 		}
 		return ce
@@ -450,14 +521,39 @@ func (st *delitState) delitOnce(fname string, src []byte, original, skip map[str
 	}
 	bad := ""
 	var rets []*ast.ReturnStmt
+	// deferred calls that can be run at the exits instead (see undefer below)
+	topDefer := map[*ast.DeferStmt]bool{}
+	for _, s := range fl.Body.List {
+		if d, ok := s.(*ast.DeferStmt); ok {
+			topDefer[d] = true
+		}
+	}
+	var defers []*ast.DeferStmt
+	panics := false
+	assigned := map[string]bool{}
 	ast.Inspect(fl.Body, func(n ast.Node) bool {
 		switch x := n.(type) {
 		case *ast.FuncLit:
 			// a nested literal: its returns are its own; but a recover inside a deferred nested literal needs a defer here,
 			// which is refused anyway
+			if bytes.Contains(src[off(x.Pos()):off(x.End())], []byte("recover()")) {
+				bad = "recover"
+			}
 			return false
+		case *ast.AssignStmt:
+			if x.Tok != token.DEFINE {
+				for _, l := range x.Lhs {
+					if id, ok := l.(*ast.Ident); ok {
+						assigned[id.Name] = true
+					}
+				}
+			}
 		case *ast.DeferStmt:
-			bad = "defer"
+			if topDefer[x] && undeferable(x) {
+				defers = append(defers, x)
+			} else {
+				bad = "defer"
+			}
 		case *ast.LabeledStmt:
 			bad = "label"
 		case *ast.BranchStmt:
@@ -468,6 +564,12 @@ func (st *delitState) delitOnce(fname string, src []byte, original, skip map[str
 			if id, ok := x.Fun.(*ast.Ident); ok && id.Name == "recover" {
 				bad = "recover"
 			}
+			if id, ok := x.Fun.(*ast.Ident); ok && (id.Name == "panic" || st.mayPanic[id.Name]) {
+				panics = true
+			}
+			if se, ok := x.Fun.(*ast.SelectorExpr); ok && st.mayPanic[se.Sel.Name] {
+				panics = true
+			}
 		case *ast.ReturnStmt:
 			rets = append(rets, x)
 		}
@@ -475,6 +577,35 @@ func (st *delitState) delitOnce(fname string, src []byte, original, skip map[str
 	})
 	if bad != "" {
 		return bail(bad)
+	}
+	// undefer: `defer x.m()` statements at the top level of the literal, all of them executed before any return
+	// statement is reached, run after the results are evaluated on every way out - which is what writing the call
+	// before each exit does, as long as nothing panics in between (an explicit panic is refused; results are unnamed, so
+	// a deferred call cannot change them).
+	if len(defers) > 0 {
+		if panics {
+			return bail("defer protecting a call that can panic")
+		}
+		last := defers[len(defers)-1]
+		for _, r := range rets {
+			if r.Pos() < last.End() {
+				return bail("defer after a return")
+			}
+		}
+		for _, r := range rs {
+			if r.name != "" {
+				return bail("defer with named results")
+			}
+		}
+		for _, d := range defers {
+			if id := rootIdentOf(d.Call.Fun); id != nil && assigned[id.Name] {
+				return bail("defer of a reassigned receiver")
+			}
+		}
+	}
+	deferred := ""
+	for i := len(defers) - 1; i >= 0; i-- {
+		deferred += text(defers[i].Call) + "; "
 	}
 	for _, r := range rets {
 		if len(r.Results) != 0 && len(r.Results) != len(rs) {
@@ -540,8 +671,20 @@ func (st *delitState) delitOnce(fname string, src []byte, original, skip map[str
 			}
 			b.WriteString(strings.Join(l, ", ") + " = " + strings.Join(rr, ", ") + "; ")
 		}
+		b.WriteString(deferred)
 		b.WriteString("break " + id + " }")
 		eds = append(eds, edit{off(r.Pos()), off(r.End()), b.String()})
+	}
+	for _, d := range defers {
+		eds = append(eds, edit{off(d.Pos()), off(d.End()), ""})
+	}
+	fallOff := ""
+	if len(defers) > 0 {
+		if n := len(fl.Body.List); n > 0 {
+			if _, isRet := fl.Body.List[n-1].(*ast.ReturnStmt); !isRet {
+				fallOff = "\n" + deferred
+			}
+		}
 	}
 	sort.Slice(eds, func(i, j int) bool { return eds[i].from > eds[j].from })
 	bodyFrom, bodyTo := off(fl.Body.Lbrace)+1, off(fl.Body.Rbrace)
@@ -576,8 +719,14 @@ func (st *delitState) delitOnce(fname string, src []byte, original, skip map[str
 			_ = i
 		}
 	}
-	blk.WriteString(id + ":\nswitch {\ndefault:\n")
+	if len(rets) == 0 {
+		// nothing jumps out: a plain block (an unused label does not compile)
+		blk.WriteString("{\n")
+	} else {
+		blk.WriteString(id + ":\nswitch {\ndefault:\n")
+	}
 	blk.Write(body)
+	blk.WriteString(fallOff)
 	blk.WriteString("\n}\n")
 	if named {
 		// a bare return (or falling off the end is impossible with results) leaves the values in the named results
@@ -697,7 +846,7 @@ func delitOverlay(dir string, overlay map[string][]byte, env []string) (map[stri
 			iifeTexts(b, original)
 		}
 	}
-	st := &delitState{}
+	st := &delitState{mayPanic: mayPanicNames(files, overlay)}
 	out := map[string][]byte{}
 	changed := false
 	for fn, src := range overlay {
@@ -745,4 +894,78 @@ func rootIdentOf(e ast.Expr) *ast.Ident {
 			return nil
 		}
 	}
+}
+
+// undeferable: a deferred call without arguments whose function is a chain of selections from a name (x.mu.Unlock) or
+// a parameterless function literal; evaluating it at the exit instead of at the defer statement gives the same call
+// when the name is not assigned in between (checked by the caller).
+func undeferable(d *ast.DeferStmt) bool {
+	if len(d.Call.Args) != 0 {
+		return false
+	}
+	switch f := d.Call.Fun.(type) {
+	case *ast.FuncLit:
+		return f.Type.Params == nil || len(f.Type.Params.List) == 0
+	case *ast.SelectorExpr:
+		var e ast.Expr = f
+		for {
+			switch x := e.(type) {
+			case *ast.SelectorExpr:
+				e = x.X
+				continue
+			case *ast.Ident:
+				return true
+			}
+			return false
+		}
+	}
+	return false
+}
+
+// The literals that stand in the files on disk are never rewritten. Comparing texts is not enough for that: once a
+// helper called inside such a literal has been inlined, its text differs from the one on disk. markOriginals therefore
+// puts a declaration that generates no code at the head of every immediately invoked literal before anything else is
+// done; it travels with the literal through every later rewrite.
+const origMarker = " const _bbOrig = 0;"
+
+func markOriginals(src []byte) []byte {
+	fset := token.NewFileSet()
+	f, err := parser.ParseFile(fset, "x.go", src, parser.SkipObjectResolution)
+	if err != nil {
+		return src
+	}
+	var offs []int
+	ast.Inspect(f, func(n ast.Node) bool {
+		if ce, ok := n.(*ast.CallExpr); ok {
+			if fl, ok := ce.Fun.(*ast.FuncLit); ok && !hasOrigMarker(fl) {
+				offs = append(offs, fset.Position(fl.Body.Lbrace).Offset+1)
+			}
+		}
+		return true
+	})
+	if len(offs) == 0 {
+		return src
+	}
+	sort.Sort(sort.Reverse(sort.IntSlice(offs)))
+	out := append([]byte{}, src...)
+	for _, o := range offs {
+		out = append(append(append([]byte{}, out[:o]...), []byte(origMarker)...), out[o:]...)
+	}
+	return out
+}
+
+func hasOrigMarker(fl *ast.FuncLit) bool {
+	if fl.Body == nil || len(fl.Body.List) == 0 {
+		return false
+	}
+	ds, ok := fl.Body.List[0].(*ast.DeclStmt)
+	if !ok {
+		return false
+	}
+	gd, ok := ds.Decl.(*ast.GenDecl)
+	if !ok || gd.Tok != token.CONST || len(gd.Specs) != 1 {
+		return false
+	}
+	vs := gd.Specs[0].(*ast.ValueSpec)
+	return len(vs.Names) == 1 && vs.Names[0].Name == "_bbOrig"
 }
